@@ -322,8 +322,10 @@ func RunW2Scripted(prof *Profile, plan, sched *simrt.Source, trace bool) *RunOut
 			add("mgmt-panic", prev, fmt.Sprintf("%s panicked in state %v: %s", name, models[i], firstLine(r.Panicked)))
 			break
 		}
-		if mustFail[i] && r.Err == nil {
-			add("invalid-operation-accepted", "", fmt.Sprintf("%s must fail (invalid text / empty name list / invalid model) but returned nil", name))
+		if mustFail[i] && r.Err == nil && op.Invalid {
+			// a removal of no names or an unknown model number must leave the state alone (checked below through
+			// the model); whether they also report an error is not part of the property.  A broken text must be refused.
+			add("invalid-operation-accepted", "", fmt.Sprintf("%s: a broken rule text was accepted", name))
 		}
 		if !mustFail[i] && r.Err != nil {
 			add("valid-operation-rejected", "", fmt.Sprintf("%s failed in state %v: %v", name, models[i], r.Err))
